@@ -490,7 +490,7 @@ def run_shard(ctx):
     run_identifiers(ctx, idx)
 
 
-PART_POOL = ['a', 'Tbl', 'mixedCase', 'x_y', '_u', 'col1', '1st', '9', '007', 'my col', 'a-b', 'a.b', 'é', 'Ünï', 'select', 'FROM',
+PART_POOL = ['monthly  report', 'a   b', 'a', 'Tbl', 'mixedCase', 'x_y', '_u', 'col1', '1st', '9', '007', 'my col', 'a-b', 'a.b', 'é', 'Ünï', 'select', 'FROM',
              'Order', 'group by', 'primary_key', 'last', 'LATEST', 'a b.c d', '$x', 'a$1', 'x y z', '.', 'a.', '.a', 'status', 'Table',
              'a ', ' a', ' a b ', 'Sheet1 ', '  ', 'STRASSE', 'straße', 'FI', 'ﬁ', 'ſ', 'S', 'İ', 'i̇', 'a\rb', 'a\r\nb', 'a\nb', 'a\tb', '\r']
 
@@ -574,6 +574,14 @@ def run_identifiers(ctx, idx):
         'from': ('SELECT * FROM {I}', lambda t: t.from_table),
         'where': ('SELECT * FROM t WHERE {I} = 1', lambda t: t.where.args[0]),
         'insert': ('INSERT INTO {I} (a) VALUES (1)', lambda t: t.table),
+        # every statement kind prints its names itself
+        'drop-table': ('DROP TABLE {I}', lambda t: t.tables[0]),
+        'drop-table-if': ('DROP TABLE IF EXISTS {I}', lambda t: t.tables[0]),
+        'update': ('UPDATE {I} SET a = 1', lambda t: t.table),
+        'delete': ('DELETE FROM {I} WHERE a = 1', lambda t: t.table),
+        'create-table': ('CREATE TABLE {I} (a int)', lambda t: t.name),
+        'join': ('SELECT * FROM t JOIN {I} ON 1 = 1', lambda t: t.from_table.right),
+        'order-by': ('SELECT a FROM t ORDER BY {I}', lambda t: t.order_by[0].field),
     }
     names = list(ID_POS)
     for pi, parts in enumerate(paths):
@@ -588,7 +596,7 @@ def run_identifiers(ctx, idx):
                 if quoting.startswith('dq'):
                     if dialect != 'mindsdb' or (quoting == 'dq-tail' and len(parts) < 2):
                         continue
-                    if quoting == 'dq-all' and names[(pi + len(parts)) % len(names)] in ('select', 'where'):
+                    if quoting == 'dq-all' and names[(pi + len(parts)) % len(names)] in ('select', 'where', 'order-by'):
                         continue    # a lone double-quoted token in expression position is a string constant
                     # double-quoted path components (mindsdb dialect): all of them, or all but the first
                     text = '.'.join((f'`{p}`' if not plain(p) else p) if (i == 0 and quoting == 'dq-tail') else f'"{p}"'
@@ -596,6 +604,8 @@ def run_identifiers(ctx, idx):
                 else:
                     text = '.'.join(p if (quoting == 'needed' and plain(p)) else f'`{p}`' for p in parts)
                 pos = names[(pi + len(parts)) % len(names)]
+                if dialect != 'mindsdb' and pos in ('drop-table', 'drop-table-if', 'update', 'delete', 'create-table', 'join', 'order-by'):
+                    pos = names[pi % 4]         # the other two dialects read fewer statement kinds: the four basic positions
                 tmpl, get = ID_POS[pos]
                 sql = tmpl.format(I=text)
                 acc.ev()
@@ -607,6 +617,19 @@ def run_identifiers(ctx, idx):
                     got = [str(x) for x in n.parts] if type(n).__name__ == 'Identifier' else None
                 except Exception as e:
                     got = 'rejected:' + type(e).__name__
+                if got == parts:
+                    # ... and the statement printed by the library reads back with the same name (each statement class prints its own)
+                    try:
+                        t2_ = parse_sql(sql, dialect)
+                        n2 = get(parse_sql(t2_.to_string(), dialect))
+                        got2 = [str(x) for x in n2.parts] if type(n2).__name__ == 'Identifier' else None
+                    except Exception as e:
+                        got2 = 'rejected:' + type(e).__name__
+                    acc.count('identifier_statement_roundtrips')
+                    if got2 != parts:
+                        sig = {'direction': 'print', 'kind': 'identifier', 'dialect_class': 'mindsdb' if dialect == 'mindsdb' else 'mysql/sqlite',
+                               'failure': 'statement-print-not-read-back', 'position': pos, 'feat': 'path:' + '|'.join(feats)}
+                        acc.fail(sig, {'parts': parts, 'sql': sql, 'dialect': dialect, 'got': got2})
                 if got != parts:
                     # attribute to the smallest failing single part if there is one
                     culprit = None
